@@ -207,70 +207,78 @@ namespace Cog.Closed
 open Cog Cog.IR Cog.Passes
 open Cog.OMap (rget rset)
 
-theorem C_anonymousStructsToNamed (S S' : Schemas) (hc : Closed S) (hup : (S.map (·.pkg)).Nodup)
-    (h : AnonymousStructsToNamed.run S = .ok S') : Closed S' ∧ KeysMono S S' := by
-  simp only [AnonymousStructsToNamed.run, Outcome.ok.injEq] at h
-  subst h
+/-- what a pass of the shape "rewrite every object, collect new objects, `AddObjects` them" has to
+    establish per schema -/
+def Anon.Spec (S : Schemas) (s : Schema) (r : Objects × List Obj) : Prop :=
+  Anon.AccOK s.pkg (fun u => resolves S u = true) r.2 ∧
+  All2 (fun e e' => e'.1 = e.1 ∧ e'.2.name = e.2.name ∧ e'.2.selfPkg = e.2.selfPkg ∧ e'.2.selfName = e.2.selfName ∧
+    ∀ u ∈ Ty.uses s.pkg e'.2.ty, Anon.Good s.pkg (fun u => resolves S u = true) r.2 u) s.objects r.1
+
+theorem closed_of_spec (f : Schema → Objects × List Obj) (S : Schemas) (hc : Closed S) (hup : (S.map (·.pkg)).Nodup)
+    (per : ∀ s ∈ S, Anon.Spec S s (f s)) :
+    Closed (S.map fun s => { s with objects := addObjects (f s).2 (f s).1 }) ∧
+    KeysMono S (S.map fun s => { s with objects := addObjects (f s).2 (f s).1 }) := by
   have hcl := (closed_iff S).mp hc
-  have hall := all2_map AnonymousStructsToNamed.processSchema S
-  -- per schema: what processObjects gives
-  have per : ∀ s ∈ S, _ := fun s hs =>
-    Anon.pobjs (pkg := s.pkg) (R := fun u => resolves S u = true) s.objects []
-      (fun kv hkv => by
-        have hself := hcl.1 s hs kv hkv
-        rw [selfOK_iff] at hself
-        exact ⟨hself.2.1, (uses_of_closed hc hs).2.2 kv hkv⟩)
-      (fun o ho => by simp at ho)
-  have hm : KeysMono S (S.map AnonymousStructsToNamed.processSchema) := by
+  let g : Schema → Schema := fun s => { s with objects := addObjects (f s).2 (f s).1 }
+  have hall := all2_map g S
+  have hm : KeysMono S (S.map g) := by
     apply forall2_imp hall
     rintro s s' hs rfl
     refine ⟨rfl, ?_⟩
     rintro k ⟨e, he, rfl⟩
-    simp only [AnonymousStructsToNamed.processSchema]
     apply Anon.keys_addObjects
     left
-    obtain ⟨e', he', hk, _⟩ := (per s hs).2.2.mem_left he
+    obtain ⟨e', he', hk, _⟩ := (per s hs).2.mem_left he
     exact ⟨e', he', hk⟩
-  have hup' : ((S.map AnonymousStructsToNamed.processSchema).map (·.pkg)).Nodup := by
+  have hup' : ((S.map g).map (·.pkg)).Nodup := by
     rw [pkgs_of_mono hm]; exact hup
   refine ⟨?_, hm⟩
   apply closed_of_mono hc hm
   · intro s' hs' e he
     obtain ⟨s, hs, rfl⟩ := List.mem_map.mp hs'
-    simp only [AnonymousStructsToNamed.processSchema] at he
     rcases Anon.mem_addObjects _ _ e he with he | ⟨o, ho, rfl⟩
-    · obtain ⟨e0, he0, hk, hn, h1, h2, _⟩ := (per s hs).2.2.mem_right he
+    · obtain ⟨e0, he0, hk, hn, h1, h2, _⟩ := (per s hs).2.mem_right he
       have hself := hcl.1 s hs e0 he0
       rw [selfOK_iff] at hself ⊢
       exact ⟨by rw [hk, hn]; exact hself.1, by rw [h1]; exact hself.2.1, by rw [h2, hn]; exact hself.2.2⟩
-    · have := (per s hs).2.1 o ho
+    · have := (per s hs).1 o ho
       rw [selfOK_iff]
       exact ⟨rfl, this.1, this.2.1⟩
-  · apply refPositions_forall2 hall
-      (fun u => resolves S u = true ∨ resolves (S.map AnonymousStructsToNamed.processSchema) u = true)
+  · apply refPositions_forall2 hall (fun u => resolves S u = true ∨ resolves (S.map g) u = true)
     rintro s s' hs rfl r hr
-    obtain ⟨hc1, hc2, _⟩ := uses_of_closed hc hs
-    -- a use that is Good resolves before or after
-    have good : ∀ u, Anon.Good s.pkg (fun u => resolves S u = true) (AnonymousStructsToNamed.processObjects s.objects []).2 u →
-        resolves S u = true ∨ resolves (S.map AnonymousStructsToNamed.processSchema) u = true := by
+    have good : ∀ u, Anon.Good s.pkg (fun u => resolves S u = true) (f s).2 u →
+        resolves S u = true ∨ resolves (S.map g) u = true := by
       rintro u (hu | ⟨o, ho, rfl⟩)
       · exact Or.inl hu
       · right
         rw [resolves_iff]
-        refine Or.inr ⟨AnonymousStructsToNamed.processSchema s, ?_, ?_⟩
+        refine Or.inr ⟨g s, ?_, ?_⟩
         · exact FilterSchemas.locate_unique _ hup' _ (List.mem_map.mpr ⟨s, hs, rfl⟩)
-        · simp only [AnonymousStructsToNamed.processSchema]
-          exact Anon.keys_addObjects _ _ _ (Or.inr ⟨o, ho, rfl⟩)
+        · exact Anon.keys_addObjects _ _ _ (Or.inr ⟨o, ho, rfl⟩)
     simp only [schemaUses, List.mem_append, List.mem_flatMap, objUses, List.mem_map] at hr
     rcases hr with hr | ⟨e, he, u, hu, rfl⟩
     · left
-      have : entryUses (AnonymousStructsToNamed.processSchema s) = entryUses s := rfl
+      have : entryUses (g s) = entryUses s := rfl
       rw [this] at hr
       exact ((closed_iff S).mp hc).2 s hs |>.1 r hr
-    · simp only [AnonymousStructsToNamed.processSchema] at he hu
-      rcases Anon.mem_addObjects _ _ e he with he | ⟨o, ho, rfl⟩
-      · obtain ⟨e0, _, _, _, _, _, huse⟩ := (per s hs).2.2.mem_right he
+    · rcases Anon.mem_addObjects _ _ e he with he | ⟨o, ho, rfl⟩
+      · obtain ⟨e0, _, _, _, _, _, huse⟩ := (per s hs).2.mem_right he
         exact good u (huse u hu)
-      · exact good u (((per s hs).2.1 o ho).2.2 u hu)
+      · exact good u (((per s hs).1 o ho).2.2 u hu)
+
+theorem C_anonymousStructsToNamed (S S' : Schemas) (hc : Closed S) (hup : (S.map (·.pkg)).Nodup)
+    (h : AnonymousStructsToNamed.run S = .ok S') : Closed S' ∧ KeysMono S S' := by
+  simp only [AnonymousStructsToNamed.run, Outcome.ok.injEq] at h
+  subst h
+  have hcl := (closed_iff S).mp hc
+  apply closed_of_spec (fun s => AnonymousStructsToNamed.processObjects s.objects []) S hc hup
+  intro s hs
+  have := Anon.pobjs (pkg := s.pkg) (R := fun u => resolves S u = true) s.objects []
+      (fun kv hkv => by
+        have hself := hcl.1 s hs kv hkv
+        rw [selfOK_iff] at hself
+        exact ⟨hself.2.1, (uses_of_closed hc hs).2.2 kv hkv⟩)
+      (fun o ho => by simp at ho)
+  exact ⟨this.2.1, this.2.2⟩
 
 end Cog.Closed
